@@ -1,6 +1,7 @@
 import Gaftools.Spec.Glue
 import Gaftools.Model.ConvText
 import Gaftools.Proofs.GfaLemmas
+import Gaftools.Proofs.GlueLemmas
 /-!
 # Glue — the tables `index`/`view` build from the loaded graph are the abstract tables the C01–C05 theorems are stated over,
 # and the text layer of paths round-trips
@@ -14,24 +15,30 @@ open Gaftools.Gfa Gaftools.View Gaftools.Conv Gaftools.ConvText Gaftools.Spec.Co
 
 /-- the node infos of the loaded graph are the rGFA segments, in file order (in low-memory mode too) -/
 theorem infos_readGraph (t : GfaFile) (ht : TaggedRGFA t) (lm : Bool) :
-    infos (readGraph t lm) = (rsegsOf t).map (fun s => (⟨s.id, s.sn, s.so, s.en, s.sr⟩ : NodeInfo)) := by
-  sorry
+    infos (readGraph t lm) = (rsegsOf t).map (fun s => (⟨s.id, s.sn, s.so, s.en, s.sr⟩ : NodeInfo)) :=
+  Gaftools.Proofs.Glue.infos_readGraph' t ht lm
 
 theorem nodeTable_eq (t : GfaFile) (ht : TaggedRGFA t) (lm : Bool) (id : String) :
     nodeTable (readGraph t lm) id = nodeTbl (rsegsOf t) id := by
-  sorry
+  unfold nodeTable
+  rw [Gaftools.Proofs.Glue.infos_readGraph' t ht lm]
+  exact Gaftools.Proofs.Glue.nodeTable_map _ id
 
 theorem refContigs_eq (t : GfaFile) (ht : TaggedRGFA t) (lm : Bool) :
     refContigs (readGraph t lm) = refNames (rsegsOf t) := by
-  sorry
+  unfold refContigs
+  rw [Gaftools.Proofs.Glue.infos_readGraph' t ht lm]
+  exact Gaftools.Proofs.Glue.refContigs_map _
 
 theorem reference_eq (t : GfaFile) (ht : TaggedRGFA t) (lm : Bool) (c : String) :
     reference (readGraph t lm) c = refOf (rsegsOf t) c := by
-  sorry
+  unfold reference contigNodes
+  rw [Gaftools.Proofs.Glue.infos_readGraph' t ht lm]
+  exact Gaftools.Proofs.Glue.reference_map _ c
 
 theorem contigLen_eq (t : GfaFile) (ht : TaggedRGFA t) (lm : Bool) (c : String) :
-    contigLen (readGraph t lm) c = ctgLen (rsegsOf t) c := by
-  sorry
+    contigLen (readGraph t lm) c = ctgLen (rsegsOf t) c :=
+  Gaftools.Proofs.Glue.contigLen_map _ _ (Gaftools.Proofs.Glue.infos_readGraph' t ht lm) c
 
 /-! ## text layer of paths -/
 
@@ -42,15 +49,21 @@ def plainName (n : String) : Prop :=
 /-- an unstable path prints and reads back as the same steps -/
 theorem parse_render_unstable (steps : List (Bool × String)) (h : ∀ s ∈ steps, plainName s.2) :
     parseUnstableSteps (renderUPath steps) = steps := by
-  sorry
+  apply Gaftools.Proofs.Glue.parse_render_unstable'
+  intro s hs
+  obtain ⟨h1, h2, _⟩ := h s hs
+  exact ⟨h1, fun c hc => ⟨(h2 c hc).1, (h2 c hc).2.1⟩⟩
 
 /-- a stable interval path prints and reads back as the same items (non-negative bounds) -/
 theorem parse_render_ivs (l : List OIv) (h : ∀ x ∈ l, plainName x.1.contig ∧ 0 ≤ x.1.s ∧ 0 ≤ x.1.e) :
     parseStableItems (renderSPath (.ivs l)) = some (l.map (fun x => SItem.iv x.2 x.1.contig x.1.s x.1.e)) := by
-  sorry
+  apply Gaftools.Proofs.Glue.parse_render_ivs'
+  intro x hx
+  obtain ⟨⟨_, h2, _⟩, hs, he⟩ := h x hx
+  exact ⟨h2, hs, he⟩
 
 theorem parse_render_bare (c : String) (h : plainName c) :
-    parseStableItems (renderSPath (.bare c)) = some [SItem.bare c] := by
-  sorry
+    parseStableItems (renderSPath (.bare c)) = some [SItem.bare c] :=
+  Gaftools.Proofs.Glue.parse_render_bare' c h.1 h.2.1
 
 end Gaftools.Glue
